@@ -73,25 +73,35 @@ def generate(prop, rng, index, tier):
         if mk == "some":
             for _ in range(rng.randint(1, max(1, ncell // 3))):
                 mask[rng.randrange(ncell)] = True
+        if not is_int and kind in ("plain", "mixed") and rng.random() < 0.12:
+            # not-a-number and infinite cells are ordinary floating-point values for a grid (kept as text in the scenario)
+            for _ in range(rng.choice([1, 1, 2])):
+                vals[rng.randrange(ncell)] = rng.choice(["nan", "nan", "inf", "-inf"])
         grids.append({"name": "g%d" % g, "dtype": "i8" if is_int else "f8", "kind": kind, "values": vals,
                       "mask": mask, "maskkind": mk})
     reads = []
     for _ in range(rng.randint(1, 4)):
         g = rng.randrange(ngrids)
         rd = {"grid": g, "dtype": rng.choice([None, None] + list(DTYPES)), "missing": None}
+        if any(isinstance(v, str) for v in grids[g]["values"]) and rd["dtype"] in ("Integer", "Positive Integer"):
+            rd["dtype"] = rng.choice([None, "Float", "Positive Float", "Fuzzy"])   # nan -> integer is nobody's promise
+        if rd["dtype"] and rng.random() < 0.12:
+            # the type name spelled loosely: rejected, or - if an implementation accepts it - honoured like the real name
+            nm = rd["dtype"]
+            rd["spelling"] = rng.choice([nm.lower(), nm.upper(), nm.replace(" ", ""), nm.replace(" ", "_"), " " + nm, nm + " "])
         if rng.random() < 0.4:
-            present = [v for v, m in zip(grids[g]["values"], grids[g]["mask"]) if not m]
+            present = [v for v, m in zip(grids[g]["values"], grids[g]["mask"]) if not m and not isinstance(v, str)]
             rd["missing"] = rng.choice(present) if present and rng.random() < 0.7 else -12345
         reads.append(rd)
     # API clients sometimes build the command first and set / change its arguments before running it
     for rd in reads:
-        if rng.random() < 0.15:
+        if rng.random() < 0.15 and not rd.get("spelling"):
             rd["built_with_dtype"] = rng.choice([None] + list(DTYPES))
     # a value that is close to, but not equal to, the missing value must stay a value
     for rd in reads:
         g = grids[rd["grid"]]
         if rd["missing"] is not None and g["dtype"] == "f8" and rng.random() < 0.5:
-            free = [i for i, m in enumerate(g["mask"]) if not m]
+            free = [i for i, m in enumerate(g["mask"]) if not m and not isinstance(g["values"][i], str)]
             if free:
                 mv = float(rd["missing"])
                 g["values"][rng.choice(free)] = rng.choice([mv + 4e-9, mv * (1 + 2e-6) if mv else 1e-9, mv - 3e-8])
@@ -169,6 +179,8 @@ def execute(sc):
     res.log = log
     t = sc["template"]
     shape = tuple(n for _, n in t["dims"])
+    for g in sc["grids"]:
+        g["values"] = [float(v) if isinstance(v, str) else v for v in g["values"]]     # "nan", "inf", "-inf"
     log.emit("scenario", prop="C18", shape=list(shape), ngrids=len(sc["grids"]), nreads=len(sc["reads"]))
     scratch = os.environ.get("MPSIM_SCRATCH")
     if not scratch:
@@ -255,7 +267,7 @@ def execute(sc):
                     g = sc["grids"][rd["grid"] % len(sc["grids"])]
                     args = {"InFileName": out if k % 2 else "out.nc", "InFieldName": "nosuch" if rd.get("nosuch") else g["name"]}
                     if rd.get("dtype"):
-                        args["DataType"] = rd["dtype"]
+                        args["DataType"] = rd.get("spelling") or rd["dtype"]
                     if rd.get("missing") is not None:
                         args["MissingValue"] = rd["missing"]
                     rname = "R%d" % k
@@ -382,6 +394,11 @@ def _judge(res, g, rd, got, err, union, shape, numpy, MPilotError, tag=""):
             res.probe("missing variable reported")
         return
     vals = g["values"]
+    if rd.get("spelling") and rd["spelling"] != dt:
+        if err is not None and type(err).__name__ == "ParameterNotValid":
+            res.probe("loosely spelled type name rejected")
+            return
+        res.probe("loosely spelled type name accepted: judged like the real name")
     valid = [v for v, m in zip(vals, union) if not m]
     # documented type checks (on the data as stored, i.e. at non-missing cells)
     expect_err = None
@@ -430,7 +447,7 @@ def _judge(res, g, rd, got, err, union, shape, numpy, MPilotError, tag=""):
         exp_v = v
         if want_kind in ("i", "u") and not (isinstance(v, int) and abs(v) > 2 ** 53):
             exp_v = float(numpy.rint(v))
-        if dt == "Fuzzy":
+        if dt == "Fuzzy" and v == v:
             exp_v = max(-1.0, min(1.0, v))
         is_missing = m or (mv is not None and float(exp_v) == float(mv))
         if bool(mask[i]) != bool(is_missing):
@@ -446,11 +463,13 @@ def _judge(res, g, rd, got, err, union, shape, numpy, MPilotError, tag=""):
                             "cell %d of %s: wrote %d, read %d" % (i, g["name"], v, int(flat[i])))
                 return
             continue
-        if float(flat[i]) != float(exp_v):
+        if float(flat[i]) != float(exp_v) and not (exp_v != exp_v and flat[i] != flat[i]):
             res.violate("C18.value", "C18.value differs %s" % label,
                         "cell %d of %s: wrote %r, read %r (expected %r)" % (i, g["name"], v, flat[i], exp_v))
             return
     res.probe("grid read back equal (" + (dt or "default type") + ")")
+    if any(v != v or v in (float("inf"), float("-inf")) for v in vals if isinstance(v, float)):
+        res.probe("grid with nan / infinite cells read back")
     if mv is not None:
         res.probe("missing value honoured")
     if any(union):
